@@ -237,12 +237,13 @@ def run_check(prop: str, tier: str, seed: int, only=None):
         if only:
             continue
         rec = {"property": prop, "obligation": f"bounded:{bc['name']}", "kernel": bc["replayer"], "witness": bc["replayer"], "kind": "bounded",
-               "bound": bc["bound"], "covers": bc["covers"], "solver_verdict": "n/a (bounded native check)", "repo": extract.REPO}
+               "bound": bc["bound"], "covers": bc["covers"], "solver_verdict": "n/a (bounded native check)", "repo": extract.REPO, "tier": tier,
+               "seed": seed}
         path = os.path.join(rdir, re.sub(r"[^A-Za-z0-9_.#-]", "_", "bounded_" + bc["name"]) + ".json")
         with open(path, "w") as f:
             json.dump(rec, f, indent=1)
         t1 = time.time()
-        reproduced, out = native_replay(path, timeout=600)
+        reproduced, out = native_replay(path, timeout=600 if tier == "quick" else 7200)
         rec["native_replay"] = {"reproduced": reproduced, "output": (out or "")[-2000:]}
         with open(path, "w") as f:
             json.dump(rec, f, indent=1)
